@@ -1,12 +1,1324 @@
 /-
-  placeholder — to be replaced by the port (see /verif/PORTING.md)
+  openflow13/match.go, openflow13/nx_match.go (and FindFieldHeaderByName / NXRange of nx_util.go)
+
+    Match(Type,Length,[MatchField…])                     Fields is a slice of VALUES
+    MatchField(Class,Field,HasMask,Length,ExperimenterID,Value,Mask)       Value/Mask: util.Message (payload kinds below)
+    payload kinds (one numeric / byte-string field each unless noted):
+      InPortField EthDstField EthSrcField EthTypeField VlanIdField MplsLabelField MplsBosField Ipv4SrcField
+      Ipv4DstField Ipv6SrcField Ipv6DstField IPv6FlowLabelField IpProtoField IpDscpField TunnelIdField MetadataField
+      PortField TcpFlagsField ArpOperField TunnelIpv4SrcField TunnelIpv4DstField ArpXHaField ArpXPaField
+      ActsetOutputField IcmpTypeField IcmpCodeField Uint16Message Uint32Message ByteArrayField(Data,Length) CTLabel(data[16])
+    CTStates(data,mask)   NXRange(start,end)            (no Len/MarshalBinary: only functions and methods)
+
+  Behaviours of the Go code that the model reproduces on purpose (see the report of the port):
+    * MatchField.Len counts 4 bytes for a non-zero ExperimenterID, MarshalBinary never writes the id
+    * IPv6FlowLabelField.Len = 3 but its encoder produces 4 bytes (the 4th byte is cut by the container's copy)
+    * ArpXHaField.UnmarshalBinary copies into the receiver's slice: nil for new(ArpXHaField) ⇒ the address is lost
+    * DecodeMatchField calls UnmarshalBinary on a nil interface for the NXM_1 fields without a case body and for
+      unknown experimenter fields (panic); unknown class ⇒ log.Panicf
+    * none of the fixed-width decoders checks the input length (index out of range panics)
 -/
 import OFV.Model.OF.Header
+import OFV.Model.Registry
+import OFV.Gen.Pure
 namespace OFV.Model
 open OFV OFV.Go
 
-def kindsMatch : KindTab := []
-def funcsMatch : FuncTab := []
-def methodsMatch : MethodTab := []
+/-! ### net.IP helpers (nil slice = `[]`) -/
+
+/-- `ip.To4()` -/
+def ipTo4 (ip : Bytes) : Bytes :=
+  if ip.length = 4 then ip
+  else if ip.length = 16 ∧ ip.take 10 = zeros 10 ∧ ip[10]? = some 255 ∧ ip[11]? = some 255 then ip.drop 12
+  else []
+
+/-- `net.IPv4(a,b,c,d)`: the 16-byte v4-in-v6 form -/
+def ipv4 (a b c d : UInt8) : Bytes := zeros 10 ++ [255, 255, a, b, c, d]
+
+/-- `ip.To16()` -/
+def ipTo16 (ip : Bytes) : Bytes :=
+  if ip.length = 4 then zeros 10 ++ [255, 255] ++ ip
+  else if ip.length = 16 then ip
+  else []
+
+/-- `net.IPv4Mask(a,b,c,d)`: 4 bytes -/
+def ipv4Mask (a b c d : UInt8) : Bytes := [a, b, c, d]
+
+/-- `net.IPv4(data[0], data[1], data[2], data[3])` -/
+def readIPv4 (data : Slice) : R Bytes := do
+  let a ← data.byteAt 0
+  let b ← data.byteAt 1
+  let c ← data.byteAt 2
+  let d ← data.byteAt 3
+  pure (ipv4 a b c d)
+
+/-! ### payload kinds -/
+
+namespace InPortField
+def lenM (v : V) : R (UInt16 × V) := same 4 v
+def marshalM (v : V) : R (Bytes × V) :=
+  match v with
+  | .obj "InPortField" [.num x] => same (be32 (n32 x)) v
+  | _ => .panic
+def unmarshal (_recv : V) (data : Slice) : R V := do
+  let x ← data.u32From 0
+  pure (.obj "InPortField" [V.u32 x])
+def zero : V := .obj "InPortField" [.num 0]
+end InPortField
+
+namespace EthDstField
+def lenM (v : V) : R (UInt16 × V) := same 6 v
+def marshalM (v : V) : R (Bytes × V) :=
+  match v with
+  | .obj "EthDstField" [.bytes b] => same (makeCopy 6 b) v
+  | _ => .panic
+def unmarshal (_recv : V) (data : Slice) : R V :=
+  .ok (.obj "EthDstField" [.bytes (makeCopy 6 data.bytes)])
+def zero : V := .obj "EthDstField" [.bytes []]
+end EthDstField
+
+namespace EthSrcField
+def lenM (v : V) : R (UInt16 × V) := same 6 v
+def marshalM (v : V) : R (Bytes × V) :=
+  match v with
+  | .obj "EthSrcField" [.bytes b] => same (makeCopy 6 b) v
+  | _ => .panic
+def unmarshal (_recv : V) (data : Slice) : R V :=
+  .ok (.obj "EthSrcField" [.bytes (makeCopy 6 data.bytes)])
+def zero : V := .obj "EthSrcField" [.bytes []]
+end EthSrcField
+
+namespace EthTypeField
+def lenM (v : V) : R (UInt16 × V) := same 2 v
+def marshalM (v : V) : R (Bytes × V) :=
+  match v with
+  | .obj "EthTypeField" [.num x] => same (be16 (n16 x)) v
+  | _ => .panic
+def unmarshal (_recv : V) (data : Slice) : R V := do
+  let x ← data.u16From 0
+  pure (.obj "EthTypeField" [V.u16 x])
+def zero : V := .obj "EthTypeField" [.num 0]
+end EthTypeField
+
+namespace VlanIdField
+def lenM (v : V) : R (UInt16 × V) := same 2 v
+def marshalM (v : V) : R (Bytes × V) :=
+  match v with
+  | .obj "VlanIdField" [.num x] => same (be16 (n16 x)) v
+  | _ => .panic
+def unmarshal (_recv : V) (data : Slice) : R V := do
+  let x ← data.u16From 0
+  pure (.obj "VlanIdField" [V.u16 x])
+def zero : V := .obj "VlanIdField" [.num 0]
+end VlanIdField
+
+namespace MplsLabelField
+def lenM (v : V) : R (UInt16 × V) := same 4 v
+def marshalM (v : V) : R (Bytes × V) :=
+  match v with
+  | .obj "MplsLabelField" [.num x] => same (be32 (n32 x)) v
+  | _ => .panic
+def unmarshal (_recv : V) (data : Slice) : R V := do
+  let x ← data.u32From 0
+  pure (.obj "MplsLabelField" [V.u32 x])
+def zero : V := .obj "MplsLabelField" [.num 0]
+end MplsLabelField
+
+namespace MplsBosField
+def lenM (v : V) : R (UInt16 × V) := same 1 v
+def marshalM (v : V) : R (Bytes × V) :=
+  match v with
+  | .obj "MplsBosField" [.num x] => same [n8 x] v
+  | _ => .panic
+def unmarshal (_recv : V) (data : Slice) : R V := do
+  let x ← data.byteAt 0
+  pure (.obj "MplsBosField" [V.u8 x])
+def zero : V := .obj "MplsBosField" [.num 0]
+end MplsBosField
+
+namespace Ipv4SrcField
+def lenM (v : V) : R (UInt16 × V) := same 4 v
+def marshalM (v : V) : R (Bytes × V) :=
+  match v with
+  | .obj "Ipv4SrcField" [.bytes ip] => same (makeCopy 4 (ipTo4 ip)) v
+  | _ => .panic
+def unmarshal (_recv : V) (data : Slice) : R V := do
+  let ip ← readIPv4 data
+  pure (.obj "Ipv4SrcField" [.bytes ip])
+def zero : V := .obj "Ipv4SrcField" [.bytes []]
+end Ipv4SrcField
+
+namespace Ipv4DstField
+def lenM (v : V) : R (UInt16 × V) := same 4 v
+def marshalM (v : V) : R (Bytes × V) :=
+  match v with
+  | .obj "Ipv4DstField" [.bytes ip] => same (makeCopy 4 (ipTo4 ip)) v
+  | _ => .panic
+def unmarshal (_recv : V) (data : Slice) : R V := do
+  let ip ← readIPv4 data
+  pure (.obj "Ipv4DstField" [.bytes ip])
+def zero : V := .obj "Ipv4DstField" [.bytes []]
+end Ipv4DstField
+
+namespace Ipv6SrcField
+def lenM (v : V) : R (UInt16 × V) := same 16 v
+def marshalM (v : V) : R (Bytes × V) :=
+  match v with
+  | .obj "Ipv6SrcField" [.bytes ip] => same (makeCopy 16 ip) v
+  | _ => .panic
+def unmarshal (_recv : V) (data : Slice) : R V :=
+  .ok (.obj "Ipv6SrcField" [.bytes (makeCopy 16 data.bytes)])
+def zero : V := .obj "Ipv6SrcField" [.bytes []]
+end Ipv6SrcField
+
+namespace Ipv6DstField
+def lenM (v : V) : R (UInt16 × V) := same 16 v
+def marshalM (v : V) : R (Bytes × V) :=
+  match v with
+  | .obj "Ipv6DstField" [.bytes ip] => same (makeCopy 16 ip) v
+  | _ => .panic
+def unmarshal (_recv : V) (data : Slice) : R V :=
+  .ok (.obj "Ipv6DstField" [.bytes (makeCopy 16 data.bytes)])
+def zero : V := .obj "Ipv6DstField" [.bytes []]
+end Ipv6DstField
+
+/- Len() is 3, the encoder writes 4 bytes, the decoder reads 4 bytes -/
+namespace IPv6FlowLabelField
+def lenM (v : V) : R (UInt16 × V) := same 3 v
+def marshalM (v : V) : R (Bytes × V) :=
+  match v with
+  | .obj "IPv6FlowLabelField" [.num x] => same (be32 (n32 x)) v
+  | _ => .panic
+def unmarshal (_recv : V) (data : Slice) : R V := do
+  let x ← data.u32From 0
+  pure (.obj "IPv6FlowLabelField" [V.u32 x])
+def zero : V := .obj "IPv6FlowLabelField" [.num 0]
+end IPv6FlowLabelField
+
+namespace IpProtoField
+def lenM (v : V) : R (UInt16 × V) := same 1 v
+def marshalM (v : V) : R (Bytes × V) :=
+  match v with
+  | .obj "IpProtoField" [.num x] => same [n8 x] v
+  | _ => .panic
+def unmarshal (_recv : V) (data : Slice) : R V := do
+  let x ← data.byteAt 0
+  pure (.obj "IpProtoField" [V.u8 x])
+def zero : V := .obj "IpProtoField" [.num 0]
+end IpProtoField
+
+namespace IpDscpField
+def lenM (v : V) : R (UInt16 × V) := same 1 v
+def marshalM (v : V) : R (Bytes × V) :=
+  match v with
+  | .obj "IpDscpField" [.num x] => same [n8 x] v
+  | _ => .panic
+def unmarshal (_recv : V) (data : Slice) : R V := do
+  let x ← data.byteAt 0
+  pure (.obj "IpDscpField" [V.u8 x])
+def zero : V := .obj "IpDscpField" [.num 0]
+end IpDscpField
+
+namespace TunnelIdField
+def lenM (v : V) : R (UInt16 × V) := same 8 v
+def marshalM (v : V) : R (Bytes × V) :=
+  match v with
+  | .obj "TunnelIdField" [.num x] => same (be64 (n64 x)) v
+  | _ => .panic
+def unmarshal (_recv : V) (data : Slice) : R V := do
+  let x ← data.u64From 0
+  pure (.obj "TunnelIdField" [V.u64 x])
+def zero : V := .obj "TunnelIdField" [.num 0]
+end TunnelIdField
+
+namespace MetadataField
+def lenM (v : V) : R (UInt16 × V) := same 8 v
+def marshalM (v : V) : R (Bytes × V) :=
+  match v with
+  | .obj "MetadataField" [.num x] => same (be64 (n64 x)) v
+  | _ => .panic
+def unmarshal (_recv : V) (data : Slice) : R V := do
+  let x ← data.u64From 0
+  pure (.obj "MetadataField" [V.u64 x])
+def zero : V := .obj "MetadataField" [.num 0]
+end MetadataField
+
+namespace PortField
+def lenM (v : V) : R (UInt16 × V) := same 2 v
+def marshalM (v : V) : R (Bytes × V) :=
+  match v with
+  | .obj "PortField" [.num x] => same (be16 (n16 x)) v
+  | _ => .panic
+def unmarshal (_recv : V) (data : Slice) : R V := do
+  let x ← data.u16From 0
+  pure (.obj "PortField" [V.u16 x])
+def zero : V := .obj "PortField" [.num 0]
+/-- NewPortField(port) -/
+def new (port : Nat) : V := .obj "PortField" [V.u16 (n16 port)]
+end PortField
+
+namespace TcpFlagsField
+def lenM (v : V) : R (UInt16 × V) := same 2 v
+def marshalM (v : V) : R (Bytes × V) :=
+  match v with
+  | .obj "TcpFlagsField" [.num x] => same (be16 (n16 x)) v
+  | _ => .panic
+def unmarshal (_recv : V) (data : Slice) : R V := do
+  let x ← data.u16From 0
+  pure (.obj "TcpFlagsField" [V.u16 x])
+def zero : V := .obj "TcpFlagsField" [.num 0]
+end TcpFlagsField
+
+namespace ArpOperField
+def lenM (v : V) : R (UInt16 × V) := same 2 v
+def marshalM (v : V) : R (Bytes × V) :=
+  match v with
+  | .obj "ArpOperField" [.num x] => same (be16 (n16 x)) v
+  | _ => .panic
+def unmarshal (_recv : V) (data : Slice) : R V := do
+  let x ← data.u16From 0
+  pure (.obj "ArpOperField" [V.u16 x])
+def zero : V := .obj "ArpOperField" [.num 0]
+end ArpOperField
+
+namespace TunnelIpv4SrcField
+def lenM (v : V) : R (UInt16 × V) := same 4 v
+def marshalM (v : V) : R (Bytes × V) :=
+  match v with
+  | .obj "TunnelIpv4SrcField" [.bytes ip] => same (makeCopy 4 (ipTo4 ip)) v
+  | _ => .panic
+def unmarshal (_recv : V) (data : Slice) : R V := do
+  let ip ← readIPv4 data
+  pure (.obj "TunnelIpv4SrcField" [.bytes ip])
+def zero : V := .obj "TunnelIpv4SrcField" [.bytes []]
+end TunnelIpv4SrcField
+
+namespace TunnelIpv4DstField
+def lenM (v : V) : R (UInt16 × V) := same 4 v
+def marshalM (v : V) : R (Bytes × V) :=
+  match v with
+  | .obj "TunnelIpv4DstField" [.bytes ip] => same (makeCopy 4 (ipTo4 ip)) v
+  | _ => .panic
+def unmarshal (_recv : V) (data : Slice) : R V := do
+  let ip ← readIPv4 data
+  pure (.obj "TunnelIpv4DstField" [.bytes ip])
+def zero : V := .obj "TunnelIpv4DstField" [.bytes []]
+end TunnelIpv4DstField
+
+/- the decoder copies INTO the receiver's current slice (`copy(m.ArpHa, data[:6])`): nothing for a nil slice -/
+namespace ArpXHaField
+def lenM (v : V) : R (UInt16 × V) := same 6 v
+def marshalM (v : V) : R (Bytes × V) :=
+  match v with
+  | .obj "ArpXHaField" [.bytes b] => same (makeCopy 6 b) v
+  | _ => .panic
+def unmarshal (recv : V) (data : Slice) : R V :=
+  match recv with
+  | .obj "ArpXHaField" [.bytes cur] =>
+    if data.len < 6 then .err else do
+      let s ← data.uptoR 6
+      pure (.obj "ArpXHaField" [.bytes (copyInto cur s.bytes)])
+  | _ => .panic
+def zero : V := .obj "ArpXHaField" [.bytes []]
+end ArpXHaField
+
+namespace ArpXPaField
+def lenM (v : V) : R (UInt16 × V) := same 4 v
+def marshalM (v : V) : R (Bytes × V) :=
+  match v with
+  | .obj "ArpXPaField" [.bytes ip] => same (makeCopy 4 (ipTo4 ip)) v
+  | _ => .panic
+def unmarshal (_recv : V) (data : Slice) : R V :=
+  if data.len < 4 then .err else do
+    let ip ← readIPv4 data
+    pure (.obj "ArpXPaField" [.bytes ip])
+def zero : V := .obj "ArpXPaField" [.bytes []]
+end ArpXPaField
+
+namespace ActsetOutputField
+def lenM (v : V) : R (UInt16 × V) := same 4 v
+def marshalM (v : V) : R (Bytes × V) :=
+  match v with
+  | .obj "ActsetOutputField" [.num x] => same (be32 (n32 x)) v
+  | _ => .panic
+def unmarshal (_recv : V) (data : Slice) : R V := do
+  let x ← data.u32From 0
+  pure (.obj "ActsetOutputField" [V.u32 x])
+def zero : V := .obj "ActsetOutputField" [.num 0]
+end ActsetOutputField
+
+namespace IcmpTypeField
+def lenM (v : V) : R (UInt16 × V) := same 1 v
+def marshalM (v : V) : R (Bytes × V) :=
+  match v with
+  | .obj "IcmpTypeField" [.num x] => same [n8 x] v
+  | _ => .panic
+def unmarshal (_recv : V) (data : Slice) : R V :=
+  if data.len < 1 then .err else do
+    let x ← data.byteAt 0
+    pure (.obj "IcmpTypeField" [V.u8 x])
+def zero : V := .obj "IcmpTypeField" [.num 0]
+end IcmpTypeField
+
+namespace IcmpCodeField
+def lenM (v : V) : R (UInt16 × V) := same 1 v
+def marshalM (v : V) : R (Bytes × V) :=
+  match v with
+  | .obj "IcmpCodeField" [.num x] => same [n8 x] v
+  | _ => .panic
+def unmarshal (_recv : V) (data : Slice) : R V :=
+  if data.len < 1 then .err else do
+    let x ← data.byteAt 0
+    pure (.obj "IcmpCodeField" [V.u8 x])
+def zero : V := .obj "IcmpCodeField" [.num 0]
+end IcmpCodeField
+
+namespace Uint16Message
+def lenM (v : V) : R (UInt16 × V) := same 2 v
+def marshalM (v : V) : R (Bytes × V) :=
+  match v with
+  | .obj "Uint16Message" [.num x] => same (be16 (n16 x)) v
+  | _ => .panic
+def unmarshal (_recv : V) (data : Slice) : R V :=
+  if data.len < 2 then .err else do
+    let x ← data.u16In 0 2
+    pure (.obj "Uint16Message" [V.u16 x])
+def zero : V := .obj "Uint16Message" [.num 0]
+/-- newUint16Message(data) -/
+def new (x : UInt16) : V := .obj "Uint16Message" [V.u16 x]
+end Uint16Message
+
+namespace Uint32Message
+def lenM (v : V) : R (UInt16 × V) := same 4 v
+def marshalM (v : V) : R (Bytes × V) :=
+  match v with
+  | .obj "Uint32Message" [.num x] => same (be32 (n32 x)) v
+  | _ => .panic
+def unmarshal (_recv : V) (data : Slice) : R V :=
+  if data.len < 4 then .err else do
+    let x ← data.u32In 0 4
+    pure (.obj "Uint32Message" [V.u32 x])
+def zero : V := .obj "Uint32Message" [.num 0]
+/-- newUint32Message(data) -/
+def new (x : UInt32) : V := .obj "Uint32Message" [V.u32 x]
+end Uint32Message
+
+/- ByteArrayField(Data, Length): Len() = Length, whatever len(Data) is -/
+namespace ByteArrayField
+def lenM (v : V) : R (UInt16 × V) :=
+  match v with
+  | .obj "ByteArrayField" [_, .num l] => same (n8 l).toUInt16 v
+  | _ => .panic
+def marshalM (v : V) : R (Bytes × V) :=
+  match v with
+  | .obj "ByteArrayField" [.bytes d, .num l] => same (makeCopy (n8 l).toNat d) v
+  | _ => .panic
+def unmarshal (recv : V) (data : Slice) : R V :=
+  match recv with
+  | .obj "ByteArrayField" [_, .num l] =>
+    let expect := (n8 l).toNat
+    if data.len < expect then .err else do
+      let s ← data.uptoR expect
+      pure (.obj "ByteArrayField" [.bytes (makeCopy expect s.bytes), .num l])
+  | _ => .panic
+def zero : V := .obj "ByteArrayField" [.bytes [], .num 0]
+end ByteArrayField
+
+/- CTLabel(data [16]byte) -/
+namespace CTLabel
+def lenM (v : V) : R (UInt16 × V) := same 16 v
+def marshalM (v : V) : R (Bytes × V) :=
+  match v with
+  | .obj "CTLabel" [.bytes d] => same (makeCopy 16 d) v
+  | _ => .panic
+def unmarshal (_recv : V) (data : Slice) : R V :=
+  -- m.data = [16]byte{}; copy(m.data[:], data) or copy(m.data[:], data[:16]): both = the first ≤16 visible bytes
+  .ok (.obj "CTLabel" [.bytes (makeCopy 16 data.bytes)])
+def zero : V := .obj "CTLabel" [.bytes (zeros 16)]
+/-- newCTLabel(data [16]byte): the argument array is zero-padded / cut to 16 bytes -/
+def new (d : Bytes) : V := .obj "CTLabel" [.bytes (makeCopy 16 (makeCopy 16 d))]
+end CTLabel
+
+/-! ### interface util.Message as held by MatchField.Value / Mask: dispatch on the dynamic type -/
+namespace MatchPayload
+def lenM (v : V) : R (UInt16 × V) :=
+  match v.kind with
+  | "InPortField" => InPortField.lenM v
+  | "EthDstField" => EthDstField.lenM v
+  | "EthSrcField" => EthSrcField.lenM v
+  | "EthTypeField" => EthTypeField.lenM v
+  | "VlanIdField" => VlanIdField.lenM v
+  | "MplsLabelField" => MplsLabelField.lenM v
+  | "MplsBosField" => MplsBosField.lenM v
+  | "Ipv4SrcField" => Ipv4SrcField.lenM v
+  | "Ipv4DstField" => Ipv4DstField.lenM v
+  | "Ipv6SrcField" => Ipv6SrcField.lenM v
+  | "Ipv6DstField" => Ipv6DstField.lenM v
+  | "IPv6FlowLabelField" => IPv6FlowLabelField.lenM v
+  | "IpProtoField" => IpProtoField.lenM v
+  | "IpDscpField" => IpDscpField.lenM v
+  | "TunnelIdField" => TunnelIdField.lenM v
+  | "MetadataField" => MetadataField.lenM v
+  | "PortField" => PortField.lenM v
+  | "TcpFlagsField" => TcpFlagsField.lenM v
+  | "ArpOperField" => ArpOperField.lenM v
+  | "TunnelIpv4SrcField" => TunnelIpv4SrcField.lenM v
+  | "TunnelIpv4DstField" => TunnelIpv4DstField.lenM v
+  | "ArpXHaField" => ArpXHaField.lenM v
+  | "ArpXPaField" => ArpXPaField.lenM v
+  | "ActsetOutputField" => ActsetOutputField.lenM v
+  | "IcmpTypeField" => IcmpTypeField.lenM v
+  | "IcmpCodeField" => IcmpCodeField.lenM v
+  | "Uint16Message" => Uint16Message.lenM v
+  | "Uint32Message" => Uint32Message.lenM v
+  | "ByteArrayField" => ByteArrayField.lenM v
+  | "CTLabel" => CTLabel.lenM v
+  | _ => .panic      -- nil interface (or a message kind that is not a match payload)
+
+def marshalM (v : V) : R (Bytes × V) :=
+  match v.kind with
+  | "InPortField" => InPortField.marshalM v
+  | "EthDstField" => EthDstField.marshalM v
+  | "EthSrcField" => EthSrcField.marshalM v
+  | "EthTypeField" => EthTypeField.marshalM v
+  | "VlanIdField" => VlanIdField.marshalM v
+  | "MplsLabelField" => MplsLabelField.marshalM v
+  | "MplsBosField" => MplsBosField.marshalM v
+  | "Ipv4SrcField" => Ipv4SrcField.marshalM v
+  | "Ipv4DstField" => Ipv4DstField.marshalM v
+  | "Ipv6SrcField" => Ipv6SrcField.marshalM v
+  | "Ipv6DstField" => Ipv6DstField.marshalM v
+  | "IPv6FlowLabelField" => IPv6FlowLabelField.marshalM v
+  | "IpProtoField" => IpProtoField.marshalM v
+  | "IpDscpField" => IpDscpField.marshalM v
+  | "TunnelIdField" => TunnelIdField.marshalM v
+  | "MetadataField" => MetadataField.marshalM v
+  | "PortField" => PortField.marshalM v
+  | "TcpFlagsField" => TcpFlagsField.marshalM v
+  | "ArpOperField" => ArpOperField.marshalM v
+  | "TunnelIpv4SrcField" => TunnelIpv4SrcField.marshalM v
+  | "TunnelIpv4DstField" => TunnelIpv4DstField.marshalM v
+  | "ArpXHaField" => ArpXHaField.marshalM v
+  | "ArpXPaField" => ArpXPaField.marshalM v
+  | "ActsetOutputField" => ActsetOutputField.marshalM v
+  | "IcmpTypeField" => IcmpTypeField.marshalM v
+  | "IcmpCodeField" => IcmpCodeField.marshalM v
+  | "Uint16Message" => Uint16Message.marshalM v
+  | "Uint32Message" => Uint32Message.marshalM v
+  | "ByteArrayField" => ByteArrayField.marshalM v
+  | "CTLabel" => CTLabel.marshalM v
+  | _ => .panic
+
+def unmarshal (recv : V) (data : Slice) : R V :=
+  match recv.kind with
+  | "InPortField" => InPortField.unmarshal recv data
+  | "EthDstField" => EthDstField.unmarshal recv data
+  | "EthSrcField" => EthSrcField.unmarshal recv data
+  | "EthTypeField" => EthTypeField.unmarshal recv data
+  | "VlanIdField" => VlanIdField.unmarshal recv data
+  | "MplsLabelField" => MplsLabelField.unmarshal recv data
+  | "MplsBosField" => MplsBosField.unmarshal recv data
+  | "Ipv4SrcField" => Ipv4SrcField.unmarshal recv data
+  | "Ipv4DstField" => Ipv4DstField.unmarshal recv data
+  | "Ipv6SrcField" => Ipv6SrcField.unmarshal recv data
+  | "Ipv6DstField" => Ipv6DstField.unmarshal recv data
+  | "IPv6FlowLabelField" => IPv6FlowLabelField.unmarshal recv data
+  | "IpProtoField" => IpProtoField.unmarshal recv data
+  | "IpDscpField" => IpDscpField.unmarshal recv data
+  | "TunnelIdField" => TunnelIdField.unmarshal recv data
+  | "MetadataField" => MetadataField.unmarshal recv data
+  | "PortField" => PortField.unmarshal recv data
+  | "TcpFlagsField" => TcpFlagsField.unmarshal recv data
+  | "ArpOperField" => ArpOperField.unmarshal recv data
+  | "TunnelIpv4SrcField" => TunnelIpv4SrcField.unmarshal recv data
+  | "TunnelIpv4DstField" => TunnelIpv4DstField.unmarshal recv data
+  | "ArpXHaField" => ArpXHaField.unmarshal recv data
+  | "ArpXPaField" => ArpXPaField.unmarshal recv data
+  | "ActsetOutputField" => ActsetOutputField.unmarshal recv data
+  | "IcmpTypeField" => IcmpTypeField.unmarshal recv data
+  | "IcmpCodeField" => IcmpCodeField.unmarshal recv data
+  | "Uint16Message" => Uint16Message.unmarshal recv data
+  | "Uint32Message" => Uint32Message.unmarshal recv data
+  | "ByteArrayField" => ByteArrayField.unmarshal recv data
+  | "CTLabel" => CTLabel.unmarshal recv data
+  | _ => .panic
+end MatchPayload
+
+/-! ### DecodeMatchField -/
+
+/-- what the `switch field` leaves in `val` -/
+inductive DecTarget where
+  | val (recv : V)     -- val = new(T)
+  | nilVal             -- a `case` without a body: val stays nil
+  | unhandled          -- the `default:` branch
+
+open Gen.openflow13 in
+/-- `switch field` of class OXM_CLASS_OPENFLOW_BASIC: field ↦ new(T) (`none` = case without a body) -/
+def basicFieldTable : List (Nat × Option V) := [
+  (OXM_FIELD_IN_PORT, some InPortField.zero),
+  (OXM_FIELD_IN_PHY_PORT, none),
+  (OXM_FIELD_METADATA, some MetadataField.zero),
+  (OXM_FIELD_ETH_DST, some EthDstField.zero),
+  (OXM_FIELD_ETH_SRC, some EthSrcField.zero),
+  (OXM_FIELD_ETH_TYPE, some EthTypeField.zero),
+  (OXM_FIELD_VLAN_VID, some VlanIdField.zero),
+  (OXM_FIELD_VLAN_PCP, none),
+  (OXM_FIELD_IP_DSCP, some IpDscpField.zero),
+  (OXM_FIELD_IP_ECN, none),
+  (OXM_FIELD_IP_PROTO, some IpProtoField.zero),
+  (OXM_FIELD_IPV4_SRC, some Ipv4SrcField.zero),
+  (OXM_FIELD_IPV4_DST, some Ipv4DstField.zero),
+  (OXM_FIELD_TCP_SRC, some PortField.zero),
+  (OXM_FIELD_TCP_DST, some PortField.zero),
+  (OXM_FIELD_UDP_SRC, some PortField.zero),
+  (OXM_FIELD_UDP_DST, some PortField.zero),
+  (OXM_FIELD_SCTP_SRC, some PortField.zero),
+  (OXM_FIELD_SCTP_DST, some PortField.zero),
+  (OXM_FIELD_ICMPV4_TYPE, some IcmpTypeField.zero),
+  (OXM_FIELD_ICMPV4_CODE, some IcmpCodeField.zero),
+  (OXM_FIELD_ARP_OP, some ArpOperField.zero),
+  (OXM_FIELD_ARP_SPA, some ArpXPaField.zero),
+  (OXM_FIELD_ARP_TPA, some ArpXPaField.zero),
+  (OXM_FIELD_ARP_SHA, some ArpXHaField.zero),
+  (OXM_FIELD_ARP_THA, some ArpXHaField.zero),
+  (OXM_FIELD_IPV6_SRC, some Ipv6SrcField.zero),
+  (OXM_FIELD_IPV6_DST, some Ipv6DstField.zero),
+  (OXM_FIELD_IPV6_FLABEL, some IPv6FlowLabelField.zero),
+  (OXM_FIELD_ICMPV6_TYPE, some IcmpTypeField.zero),
+  (OXM_FIELD_ICMPV6_CODE, some IcmpCodeField.zero),
+  (OXM_FIELD_IPV6_ND_TARGET, some Ipv6DstField.zero),
+  (OXM_FIELD_IPV6_ND_SLL, some EthSrcField.zero),
+  (OXM_FIELD_IPV6_ND_TLL, some EthDstField.zero),
+  (OXM_FIELD_MPLS_LABEL, some MplsLabelField.zero),
+  (OXM_FIELD_MPLS_TC, none),
+  (OXM_FIELD_MPLS_BOS, some MplsBosField.zero),
+  (OXM_FIELD_PBB_ISID, none),
+  (OXM_FIELD_TUNNEL_ID, some TunnelIdField.zero),
+  (OXM_FIELD_IPV6_EXTHDR, none),
+  (OXM_FIELD_TCP_FLAGS, some TcpFlagsField.zero)
+]
+
+/-- the ByteArrayField receiver prepared for tun_metadata / xxreg: Length = length or length/2 (uint8) -/
+def byteArrayRecv (length : Nat) (hasMask : Bool) : V :=
+  let l : UInt8 := n8 length
+  .obj "ByteArrayField" [.bytes [], V.u8 (if hasMask then l / 2 else l)]
+
+open Gen.openflow13 in
+/-- `switch field` of class OXM_CLASS_NXM_1 -/
+def nxm1FieldTable (length : Nat) (hasMask : Bool) : List (Nat × Option V) := [
+  (NXM_NX_REG0, some Uint32Message.zero),
+  (NXM_NX_REG1, some Uint32Message.zero),
+  (NXM_NX_REG2, some Uint32Message.zero),
+  (NXM_NX_REG3, some Uint32Message.zero),
+  (NXM_NX_REG4, some Uint32Message.zero),
+  (NXM_NX_REG5, some Uint32Message.zero),
+  (NXM_NX_REG6, some Uint32Message.zero),
+  (NXM_NX_REG7, some Uint32Message.zero),
+  (NXM_NX_REG8, some Uint32Message.zero),
+  (NXM_NX_REG9, some Uint32Message.zero),
+  (NXM_NX_REG10, some Uint32Message.zero),
+  (NXM_NX_REG11, some Uint32Message.zero),
+  (NXM_NX_REG12, some Uint32Message.zero),
+  (NXM_NX_REG13, some Uint32Message.zero),
+  (NXM_NX_REG14, some Uint32Message.zero),
+  (NXM_NX_REG15, some Uint32Message.zero),
+  (NXM_NX_TUN_ID, none),
+  (NXM_NX_ARP_SHA, some ArpXHaField.zero),
+  (NXM_NX_ARP_THA, some ArpXHaField.zero),
+  (NXM_NX_IPV6_SRC, some Ipv6SrcField.zero),
+  (NXM_NX_IPV6_DST, some Ipv6DstField.zero),
+  (NXM_NX_ICMPV6_TYPE, some IcmpTypeField.zero),
+  (NXM_NX_ICMPV6_CODE, some IcmpCodeField.zero),
+  (NXM_NX_ND_TARGET, some Ipv6DstField.zero),
+  (NXM_NX_ND_SLL, some EthDstField.zero),
+  (NXM_NX_ND_TLL, some EthSrcField.zero),
+  (NXM_NX_IP_FRAG, none),
+  (NXM_NX_IPV6_LABEL, some IPv6FlowLabelField.zero),
+  (NXM_NX_IP_ECN, none),
+  (NXM_NX_IP_TTL, none),
+  (NXM_NX_MPLS_TTL, none),
+  (NXM_NX_TUN_IPV4_SRC, some TunnelIpv4SrcField.zero),
+  (NXM_NX_TUN_IPV4_DST, some TunnelIpv4DstField.zero),
+  (NXM_NX_PKT_MARK, some Uint32Message.zero),
+  (NXM_NX_TCP_FLAGS, none),
+  (NXM_NX_DP_HASH, none),
+  (NXM_NX_RECIRC_ID, none),
+  (NXM_NX_CONJ_ID, some Uint32Message.zero),
+  (NXM_NX_TUN_GBP_ID, none),
+  (NXM_NX_TUN_GBP_FLAGS, none),
+  (NXM_NX_TUN_METADATA0, some (byteArrayRecv length hasMask)),
+  (NXM_NX_TUN_METADATA1, some (byteArrayRecv length hasMask)),
+  (NXM_NX_TUN_METADATA2, some (byteArrayRecv length hasMask)),
+  (NXM_NX_TUN_METADATA3, some (byteArrayRecv length hasMask)),
+  (NXM_NX_TUN_METADATA4, some (byteArrayRecv length hasMask)),
+  (NXM_NX_TUN_METADATA5, some (byteArrayRecv length hasMask)),
+  (NXM_NX_TUN_METADATA6, some (byteArrayRecv length hasMask)),
+  (NXM_NX_TUN_METADATA7, some (byteArrayRecv length hasMask)),
+  (NXM_NX_TUN_FLAGS, none),
+  (NXM_NX_CT_STATE, some Uint32Message.zero),
+  (NXM_NX_CT_ZONE, some Uint16Message.zero),
+  (NXM_NX_CT_MARK, some Uint32Message.zero),
+  (NXM_NX_CT_LABEL, some CTLabel.zero),
+  (NXM_NX_TUN_IPV6_SRC, some Ipv6SrcField.zero),
+  (NXM_NX_TUN_IPV6_DST, some Ipv6DstField.zero),
+  (NXM_NX_CT_NW_PROTO, some IpProtoField.zero),
+  (NXM_NX_CT_NW_SRC, some Ipv4SrcField.zero),
+  (NXM_NX_CT_NW_DST, some Ipv4DstField.zero),
+  (NXM_NX_CT_IPV6_SRC, some Ipv6SrcField.zero),
+  (NXM_NX_CT_IPV6_DST, some Ipv6DstField.zero),
+  (NXM_NX_CT_TP_DST, some PortField.zero),
+  (NXM_NX_CT_TP_SRC, some PortField.zero),
+  (NXM_NX_XXREG0, some (byteArrayRecv length hasMask)),
+  (NXM_NX_XXREG1, some (byteArrayRecv length hasMask)),
+  (NXM_NX_XXREG2, some (byteArrayRecv length hasMask)),
+  (NXM_NX_XXREG3, some (byteArrayRecv length hasMask))
+]
+
+open Gen.openflow13 in
+/-- `switch field` of class OXM_CLASS_EXPERIMENTER (no default branch) -/
+def experimenterFieldTable : List (Nat × Option V) := [
+  (OXM_FIELD_TCP_FLAGS, some TcpFlagsField.zero),
+  (OXM_FIELD_ACTSET_OUTPUT, some ActsetOutputField.zero)
+]
+
+def decTarget (tab : List (Nat × Option V)) (field : Nat) : DecTarget :=
+  match tab.lookup field with
+  | some (some recv) => .val recv
+  | some none => .nilVal
+  | none => .unhandled
+
+/-- DecodeMatchField(class, field, length, hasMask, data) -/
+def DecodeMatchField (cls field length : Nat) (hasMask : Bool) (data : Slice) : R V :=
+  if cls = Gen.openflow13.OXM_CLASS_OPENFLOW_BASIC then
+    match decTarget basicFieldTable field with
+    | .val recv => MatchPayload.unmarshal recv data
+    | .nilVal => .err          -- `if val == nil { return nil, fmt.Errorf(...) }`
+    | .unhandled => .err
+  else if cls = Gen.openflow13.OXM_CLASS_NXM_1 then
+    match decTarget (nxm1FieldTable length hasMask) field with
+    | .val recv => MatchPayload.unmarshal recv data
+    | .nilVal => .panic        -- val.UnmarshalBinary on a nil interface
+    | .unhandled => .err
+  else if cls = Gen.openflow13.OXM_CLASS_EXPERIMENTER then
+    match decTarget experimenterFieldTable field with
+    | .val recv => MatchPayload.unmarshal recv data
+    | .nilVal => .panic
+    | .unhandled => .panic     -- no default branch: val is nil
+  else .panic                  -- log.Panicf("Unsupported match field …")
+
+/-! ### MatchField -/
+namespace MatchField
+
+def zero : V := .obj "MatchField" [.num 0, .num 0, .num 0, .num 0, .num 0, .nil, .nil]
+
+def lenM (v : V) : R (UInt16 × V) :=
+  match v with
+  | .obj "MatchField" [c, f, .num hm, l, .num eid, val, mask] => do
+    let n : UInt16 := if eid = 0 then 4 else 8
+    let (lv, val) ← MatchPayload.lenM val
+    if hm = 0 then
+      pure (n + lv, .obj "MatchField" [c, f, .num hm, l, .num eid, val, mask])
+    else do
+      let (lm, mask) ← MatchPayload.lenM mask
+      pure (n + lv + lm, .obj "MatchField" [c, f, .num hm, l, .num eid, val, mask])
+  | _ => .panic
+
+/-- the ExperimenterID is counted by Len() but never written; an error of a payload encoder would be returned
+    together with the data (no payload kind has one) -/
+def marshalM (v : V) : R (Bytes × V) := do
+  let (l, v) ← lenM v
+  match v with
+  | .obj "MatchField" [.num c, .num f, .num hm, .num ln, eid, val, mask] =>
+    let fld : UInt8 := if hm = 0 then shl8 (n8 f) 1 else shl8 (n8 f) 1 ||| 1
+    let (vb, val) ← MatchPayload.marshalM val
+    if hm = 0 then do
+      let bs ← fill l.toNat [pU16 c, .put [fld], pU8 ln, pCopy vb]
+      pure (bs, .obj "MatchField" [.num c, .num f, .num hm, .num ln, eid, val, mask])
+    else do
+      let (mb, mask) ← MatchPayload.marshalM mask
+      let bs ← fill l.toNat [pU16 c, .put [fld], pU8 ln, pCopy vb, pCopy mb]
+      pure (bs, .obj "MatchField" [.num c, .num f, .num hm, .num ln, eid, val, mask])
+  | _ => .panic
+
+def unmarshal (recv : V) (data : Slice) : R V :=
+  match recv with
+  | .obj "MatchField" [_, _, _, _, eid0, _, mask0] => do
+    let cls ← data.u16From 0
+    let fld ← data.byteAt 2
+    let hasMask : Bool := (fld &&& 1) == 1
+    let field : UInt8 := fld >>> 1
+    let length ← data.byteAt 3
+    let (n, eid) ← (if cls.toNat = Gen.openflow13.OXM_CLASS_EXPERIMENTER then do
+        let e ← data.u32From 4
+        if e.toNat = Gen.openflow13.ONF_EXPERIMENTER_ID then pure ((8 : UInt16), V.u32 e) else .err
+      else pure ((4 : UInt16), eid0) : R (UInt16 × V))
+    let d ← data.fromR n.toNat
+    let val ← DecodeMatchField cls.toNat field.toNat length.toNat hasMask d
+    let (lv, val) ← MatchPayload.lenM val
+    let n : UInt16 := n + lv
+    if hasMask then do
+      let d2 ← data.fromR n.toNat
+      let mask ← DecodeMatchField cls.toNat field.toNat length.toNat hasMask d2
+      let (_, mask) ← MatchPayload.lenM mask
+      pure (.obj "MatchField" [V.u16 cls, V.u8 field, V.bool hasMask, V.u8 length, eid, val, mask])
+    else
+      pure (.obj "MatchField" [V.u16 cls, V.u8 field, V.bool hasMask, V.u8 length, eid, val, mask0])
+  | _ => .panic
+
+/-- scalar projection used by the regenerated helpers -/
+def scalars : V → Gen.openflow13.MatchField
+  | .obj "MatchField" [.num c, .num f, .num hm, .num l, .num eid, _, _] =>
+    { Class := n16 c, Field := n8 f, HasMask := hm ≠ 0, Length := n8 l, ExperimenterID := n32 eid }
+  | _ => {}
+
+/-- MatchField.MarshalHeader() -/
+def headerWord (v : V) : UInt32 := Gen.openflow13.MatchField.MarshalHeader (scalars v)
+
+/-- MatchField.UnmarshalHeader(data): Class / Field / HasMask / Length set, the rest kept -/
+def unmarshalHeader (recv : V) (data : Slice) : R V :=
+  match recv with
+  | .obj "MatchField" [_, _, _, _, eid, val, mask] =>
+    match UnmarshalHeader data.bytes with
+    | none => .err
+    | some h => .ok (.obj "MatchField" [V.u16 h.Class, V.u8 h.Field, V.bool h.HasMask, V.u8 h.Length, eid, val, mask])
+  | _ => .panic
+
+/-- MatchField.GetOXMName() -/
+def getOXMName : V → Bytes
+  | .obj "MatchField" (.num c :: .num f :: _) =>
+    if c = Gen.openflow13.OXM_CLASS_OPENFLOW_BASIC ∧ f = Gen.openflow13.OXM_FIELD_IN_PORT
+    then "in_port".toUTF8.toList else []
+  | _ => []
+
+/-- a freshly built field -/
+def mk (cls field : Nat) (hasMask : Bool) (length : UInt8) (val mask : V) : V :=
+  .obj "MatchField" [.num cls, .num field, V.bool hasMask, V.u8 length, .num 0, val, mask]
+
+/-- the constructor pattern: Length = uint8(value.Len()), and with a mask HasMask = true, Length += uint8(mask.Len()) -/
+def mkMasked (cls field : Nat) (l : UInt8) (val : V) (mask : Option V) : V :=
+  match mask with
+  | none => mk cls field false l val .nil
+  | some m => mk cls field true (l + l) val m
+
+end MatchField
+
+/-! ### Match -/
+namespace Match
+
+/-- NewMatch() -/
+def new : V := .obj "Match" [.num Gen.openflow13.MatchType_OXM, .num 4, .list []]
+def zero : V := .obj "Match" [.num 0, .num 0, .list []]
+
+/-- `for _, a := range m.Fields` iterates over copies; no payload Len() modifies anything, so nothing is lost -/
+def lenM (v : V) : R (UInt16 × V) :=
+  match v with
+  | .obj "Match" [_, _, .list fs] => do
+    let (ls, _) ← mapM2 MatchField.lenM fs
+    same (round8 (4 + sum16 ls)) v
+  | _ => .panic
+
+def marshalM (v : V) : R (Bytes × V) := do
+  let (l, v) ← lenM v
+  match v with
+  | .obj "Match" [.num ty, .num ln, .list fs] =>
+    let (bs, _) ← mapM2 MatchField.marshalM fs
+    let out ← fill l.toNat (pU16 ty :: pU16 ln :: bs.map pCopy)
+    same out v
+  | _ => .panic
+
+structure St where
+  n : Nat
+  fields : List V
+  err : Bool
+
+/-- Match.UnmarshalBinary(data) with the intermediate state: (receiver AFTER the call, true iff a non-nil error was
+    returned).  On an error of a field decoder Type and Length are as read and the fields parsed so far stay appended
+    to the receiver's fields (FlowMod / FlowStats / AggregateStatsRequest ignore the error and keep using the value). -/
+def unmarshalP (recv : V) (data : Slice) : R (V × Bool) :=
+  match recv with
+  | .obj "Match" [_, _, .list fs0] => do
+    let ty ← data.u16From 0
+    let ln ← data.u16From 2
+    -- every successful iteration advances n by field.Len() ≥ 4 and needs n ≤ len(data): fewer than len+2 iterations;
+    -- an error ends the loop (the cursor counts it as progress)
+    let st ← goLoop (σ := St) (data.len + 2) (fun s => !s.err && s.n < ln.toNat)
+      (fun s => s.n + (if s.err then 1 else 0))
+      (fun s => do
+        let d ← data.fromR s.n
+        match MatchField.unmarshal MatchField.zero d with
+        | .ok f => do
+          let (l, f) ← MatchField.lenM f
+          pure { n := s.n + l.toNat, fields := s.fields ++ [f], err := false }
+        | .err => pure { s with err := true }
+        | .panic => .panic
+        | .spin => .spin)
+      { n := 4, fields := fs0, err := false }
+    pure (.obj "Match" [V.u16 ty, V.u16 ln, .list st.fields], st.err)
+  | _ => .panic
+
+def unmarshal (recv : V) (data : Slice) : R V :=
+  match unmarshalP recv data with
+  | .ok (v, false) => .ok v
+  | .ok (_, true) => .err
+  | .err => .err
+  | .panic => .panic
+  | .spin => .spin
+
+/-- Match.AddField(f): append, Length += f.Len() -/
+def addField (m f : V) : R V :=
+  match m with
+  | .obj "Match" [ty, .num ln, .list fs] => do
+    let (l, f) ← MatchField.lenM f
+    pure (.obj "Match" [ty, V.u16 (n16 ln + l), .list (fs ++ [f])])
+  | _ => .panic
+
+end Match
+
+/-! ### constructors of match.go -/
+
+/-- optional pointer argument: `~` = nil -/
+def optArg : V → Option V
+  | .nil => none
+  | v => some v
+
+open Gen.openflow13 in
+def ctorsBasic : FuncTab := [
+  ("NewMatch", fun _ => ret1 Match.new),
+  ("NewInPortField", fun (args : List V) => match args with
+    | [.num p] => ret1 (MatchField.mk OXM_CLASS_OPENFLOW_BASIC OXM_FIELD_IN_PORT false 4 (.obj "InPortField" [V.u32 (n32 p)]) .nil)
+    | _ => .panic),
+  ("NewEthDstField", fun (args : List V) => match args with
+    | [.bytes a, m] => ret1 (MatchField.mkMasked OXM_CLASS_OPENFLOW_BASIC OXM_FIELD_ETH_DST 6 (.obj "EthDstField" [.bytes a])
+        ((optArg m).map fun x => .obj "EthDstField" [.bytes x.asBytes]))
+    | _ => .panic),
+  ("NewEthSrcField", fun (args : List V) => match args with
+    | [.bytes a, m] => ret1 (MatchField.mkMasked OXM_CLASS_OPENFLOW_BASIC OXM_FIELD_ETH_SRC 6 (.obj "EthSrcField" [.bytes a])
+        ((optArg m).map fun x => .obj "EthSrcField" [.bytes x.asBytes]))
+    | _ => .panic),
+  ("NewEthTypeField", fun (args : List V) => match args with
+    | [.num x] => ret1 (MatchField.mk OXM_CLASS_OPENFLOW_BASIC OXM_FIELD_ETH_TYPE false 2 (.obj "EthTypeField" [V.u16 (n16 x)]) .nil)
+    | _ => .panic),
+  ("NewVlanIdField", fun (args : List V) => match args with
+    | [.num x, m] => ret1 (MatchField.mkMasked OXM_CLASS_OPENFLOW_BASIC OXM_FIELD_VLAN_VID 2
+        (.obj "VlanIdField" [V.u16 (n16 x ||| n16 OFPVID_PRESENT)])
+        ((optArg m).map fun y => .obj "VlanIdField" [V.u16 (n16 y.asNat)]))
+    | _ => .panic),
+  ("NewMplsLabelField", fun (args : List V) => match args with
+    | [.num x] => ret1 (MatchField.mk OXM_CLASS_OPENFLOW_BASIC OXM_FIELD_MPLS_LABEL false 4 (.obj "MplsLabelField" [V.u32 (n32 x)]) .nil)
+    | _ => .panic),
+  ("NewMplsBosField", fun (args : List V) => match args with
+    | [.num x] => ret1 (MatchField.mk OXM_CLASS_OPENFLOW_BASIC OXM_FIELD_MPLS_BOS false 1 (.obj "MplsBosField" [V.u8 (n8 x)]) .nil)
+    | _ => .panic),
+  ("NewIpv4SrcField", fun (args : List V) => match args with
+    | [.bytes a, m] => ret1 (MatchField.mkMasked OXM_CLASS_OPENFLOW_BASIC OXM_FIELD_IPV4_SRC 4 (.obj "Ipv4SrcField" [.bytes a])
+        ((optArg m).map fun x => .obj "Ipv4SrcField" [.bytes x.asBytes]))
+    | _ => .panic),
+  ("NewIpv4DstField", fun (args : List V) => match args with
+    | [.bytes a, m] => ret1 (MatchField.mkMasked OXM_CLASS_OPENFLOW_BASIC OXM_FIELD_IPV4_DST 4 (.obj "Ipv4DstField" [.bytes a])
+        ((optArg m).map fun x => .obj "Ipv4DstField" [.bytes x.asBytes]))
+    | _ => .panic),
+  ("NewIpv6SrcField", fun (args : List V) => match args with
+    | [.bytes a, m] => ret1 (MatchField.mkMasked OXM_CLASS_OPENFLOW_BASIC OXM_FIELD_IPV6_SRC 16 (.obj "Ipv6SrcField" [.bytes a])
+        ((optArg m).map fun x => .obj "Ipv6SrcField" [.bytes x.asBytes]))
+    | _ => .panic),
+  ("NewIpv6DstField", fun (args : List V) => match args with
+    | [.bytes a, m] => ret1 (MatchField.mkMasked OXM_CLASS_OPENFLOW_BASIC OXM_FIELD_IPV6_DST 16 (.obj "Ipv6DstField" [.bytes a])
+        ((optArg m).map fun x => .obj "Ipv6DstField" [.bytes x.asBytes]))
+    | _ => .panic),
+  ("NewIPV6FlowLabelField", fun (args : List V) => match args with
+    | [.num x, m] => ret1 (MatchField.mkMasked OXM_CLASS_OPENFLOW_BASIC OXM_FIELD_IPV6_FLABEL 3
+        (.obj "IPv6FlowLabelField" [V.u32 (n32 x)])
+        ((optArg m).map fun y => .obj "IPv6FlowLabelField" [V.u32 (n32 y.asNat)]))
+    | _ => .panic),
+  ("NewIpProtoField", fun (args : List V) => match args with
+    | [.num x] => ret1 (MatchField.mk OXM_CLASS_OPENFLOW_BASIC OXM_FIELD_IP_PROTO false 1 (.obj "IpProtoField" [V.u8 (n8 x)]) .nil)
+    | _ => .panic),
+  ("NewIpDscpField", fun (args : List V) => match args with
+    | [.num x] => ret1 (MatchField.mk OXM_CLASS_OPENFLOW_BASIC OXM_FIELD_IP_DSCP false 1 (.obj "IpDscpField" [V.u8 (n8 x)]) .nil)
+    | _ => .panic),
+  ("NewTunnelIdField", fun (args : List V) => match args with
+    | [.num x] => ret1 (MatchField.mk OXM_CLASS_OPENFLOW_BASIC OXM_FIELD_TUNNEL_ID false 8 (.obj "TunnelIdField" [V.u64 (n64 x)]) .nil)
+    | _ => .panic),
+  ("NewMetadataField", fun (args : List V) => match args with
+    | [.num x, m] => ret1 (MatchField.mkMasked OXM_CLASS_OPENFLOW_BASIC OXM_FIELD_METADATA 8
+        (.obj "MetadataField" [V.u64 (n64 x)])
+        ((optArg m).map fun y => .obj "MetadataField" [V.u64 (n64 y.asNat)]))
+    | _ => .panic),
+  ("NewPortField", fun (args : List V) => match args with
+    | [.num x] => ret1 (PortField.new x)
+    | _ => .panic),
+  ("NewTcpSrcField", fun (args : List V) => match args with
+    | [.num x] => ret1 (MatchField.mk OXM_CLASS_OPENFLOW_BASIC OXM_FIELD_TCP_SRC false 2 (PortField.new x) .nil)
+    | _ => .panic),
+  ("NewTcpDstField", fun (args : List V) => match args with
+    | [.num x] => ret1 (MatchField.mk OXM_CLASS_OPENFLOW_BASIC OXM_FIELD_TCP_DST false 2 (PortField.new x) .nil)
+    | _ => .panic),
+  ("NewUdpSrcField", fun (args : List V) => match args with
+    | [.num x] => ret1 (MatchField.mk OXM_CLASS_OPENFLOW_BASIC OXM_FIELD_UDP_SRC false 2 (PortField.new x) .nil)
+    | _ => .panic),
+  ("NewUdpDstField", fun (args : List V) => match args with
+    | [.num x] => ret1 (MatchField.mk OXM_CLASS_OPENFLOW_BASIC OXM_FIELD_UDP_DST false 2 (PortField.new x) .nil)
+    | _ => .panic),
+  ("NewTcpFlagsField", fun (args : List V) => match args with
+    | [.num x, m] => ret1 (MatchField.mkMasked OXM_CLASS_OPENFLOW_BASIC OXM_FIELD_TCP_FLAGS 2
+        (.obj "TcpFlagsField" [V.u16 (n16 x)])
+        ((optArg m).map fun y => .obj "TcpFlagsField" [V.u16 (n16 y.asNat)]))
+    | _ => .panic),
+  ("NewArpOperField", fun (args : List V) => match args with
+    | [.num x] => ret1 (MatchField.mk OXM_CLASS_OPENFLOW_BASIC OXM_FIELD_ARP_OP false 2 (.obj "ArpOperField" [V.u16 (n16 x)]) .nil)
+    | _ => .panic),
+  ("NewTunnelIpv4SrcField", fun (args : List V) => match args with
+    | [.bytes a, m] => ret1 (MatchField.mkMasked OXM_CLASS_NXM_1 NXM_NX_TUN_IPV4_SRC 4 (.obj "TunnelIpv4SrcField" [.bytes a])
+        ((optArg m).map fun x => .obj "TunnelIpv4SrcField" [.bytes x.asBytes]))
+    | _ => .panic),
+  ("NewTunnelIpv4DstField", fun (args : List V) => match args with
+    | [.bytes a, m] => ret1 (MatchField.mkMasked OXM_CLASS_NXM_1 NXM_NX_TUN_IPV4_DST 4 (.obj "TunnelIpv4DstField" [.bytes a])
+        ((optArg m).map fun x => .obj "TunnelIpv4DstField" [.bytes x.asBytes]))
+    | _ => .panic),
+  ("NewSctpDstField", fun (args : List V) => match args with
+    | [.num x] => ret1 (MatchField.mk OXM_CLASS_OPENFLOW_BASIC OXM_FIELD_SCTP_DST false 2 (PortField.new x) .nil)
+    | _ => .panic),
+  ("NewSctpSrcField", fun (args : List V) => match args with
+    | [.num x] => ret1 (MatchField.mk OXM_CLASS_OPENFLOW_BASIC OXM_FIELD_SCTP_SRC false 2 (PortField.new x) .nil)
+    | _ => .panic),
+  ("NewArpThaField", fun (args : List V) => match args with
+    | [.bytes a] => ret1 (MatchField.mk OXM_CLASS_OPENFLOW_BASIC OXM_FIELD_ARP_THA false 6 (.obj "ArpXHaField" [.bytes a]) .nil)
+    | _ => .panic),
+  ("NewArpShaField", fun (args : List V) => match args with
+    | [.bytes a] => ret1 (MatchField.mk OXM_CLASS_OPENFLOW_BASIC OXM_FIELD_ARP_SHA false 6 (.obj "ArpXHaField" [.bytes a]) .nil)
+    | _ => .panic),
+  ("NewArpTpaField", fun (args : List V) => match args with
+    | [.bytes a] => ret1 (MatchField.mk OXM_CLASS_OPENFLOW_BASIC OXM_FIELD_ARP_TPA false 4 (.obj "ArpXPaField" [.bytes a]) .nil)
+    | _ => .panic),
+  ("NewArpSpaField", fun (args : List V) => match args with
+    | [.bytes a] => ret1 (MatchField.mk OXM_CLASS_OPENFLOW_BASIC OXM_FIELD_ARP_SPA false 4 (.obj "ArpXPaField" [.bytes a]) .nil)
+    | _ => .panic),
+  ("NewActsetOutputField", fun (args : List V) => match args with
+    | [.num x] => ret1 (MatchField.mk OXM_CLASS_OPENFLOW_BASIC OXM_FIELD_ACTSET_OUTPUT false 4 (.obj "ActsetOutputField" [V.u32 (n32 x)]) .nil)
+    | _ => .panic),
+  ("NewIcmpCodeField", fun (args : List V) => match args with
+    | [.num x] => ret1 (MatchField.mk OXM_CLASS_OPENFLOW_BASIC OXM_FIELD_ICMPV4_CODE false 1 (.obj "IcmpCodeField" [V.u8 (n8 x)]) .nil)
+    | _ => .panic),
+  ("NewIcmpTypeField", fun (args : List V) => match args with
+    | [.num x] => ret1 (MatchField.mk OXM_CLASS_OPENFLOW_BASIC OXM_FIELD_ICMPV4_TYPE false 1 (.obj "IcmpTypeField" [V.u8 (n8 x)]) .nil)
+    | _ => .panic),
+  ("DecodeMatchField", fun (args : List V) => match args with
+    | [.num c, .num f, .num l, .num hm, .bytes d] => do
+      let v ← DecodeMatchField (n16 c).toNat (n8 f).toNat (n8 l).toNat (hm ≠ 0) (Slice.exact d)
+      ret1 v
+    | _ => .panic)
+]
+
+/-! ### nx_util.go: FindFieldHeaderByName, NXRange; nx_match.go: CTStates and the NXM constructors -/
+
+/-- bytes of an all-ASCII Go string as a Lean string -/
+def asciiString (bs : Bytes) : String := String.ofList (bs.map fun b => Char.ofNat b.toNat)
+
+/-- the only non-ASCII runes whose `unicode.ToUpper` is ASCII: U+017F `ſ` (C5 BF) ↦ `S`, U+0131 `ı` (C4 B1) ↦ `I` -/
+def foldSpecialUpper : Bytes → Bytes
+  | 0xC5 :: 0xBF :: r => 0x53 :: foldSpecialUpper r
+  | 0xC4 :: 0xB1 :: r => 0x49 :: foldSpecialUpper r
+  | b :: r => b :: foldSpecialUpper r
+  | [] => []
+
+/-- the string to look up for `strings.ToUpper(name)` (the registry lookup upper-cases ASCII letters itself).
+    `none`: the upper-cased name keeps a non-ASCII rune (or an invalid UTF-8 byte / U+FFFD) and so equals no
+    registry key, all of which are ASCII. -/
+def lookupName (name : Bytes) : Option String :=
+  let bs := foldSpecialUpper name
+  if bs.any (fun b => b ≥ 0x80) then none else some (asciiString bs)
+
+/-- FindFieldHeaderByName(name, hasMask) as a value: `none` = error -/
+def findHeaderV (name : String) (hasMask : Bool) : Option V :=
+  (FindFieldHeaderByName name hasMask).map fun h =>
+    .obj "MatchField" [V.u16 h.Class, V.u8 h.Field, V.bool h.HasMask, V.u8 h.Length, V.u32 h.ExperimenterID, .nil, .nil]
+
+/-- `field, _ := FindFieldHeaderByName(..)` followed by a field assignment: a nil header is dereferenced -/
+def headerOrPanic (name : String) (hasMask : Bool) : R V :=
+  match findHeaderV name hasMask with
+  | some h => .ok h
+  | none => .panic
+
+def setValueMask (h val : V) (mask : Option V) : V :=
+  match h with
+  | .obj "MatchField" [c, f, hm, l, e, _, m0] => .obj "MatchField" [c, f, hm, l, e, val, mask.getD m0]
+  | v => v
+
+def setLength (h : V) (l : UInt8) : V :=
+  match h with
+  | .obj "MatchField" [c, f, hm, _, e, v, m] => .obj "MatchField" [c, f, hm, V.u8 l, e, v, m]
+  | v => v
+
+namespace NXRange
+/-- Go `int` argument / field ↦ Int64 -/
+def i64 (n : Nat) : Int64 := (UInt64.ofNat n).toInt64
+def ofV : V → Gen.openflow13.NXRange
+  | .obj "NXRange" [.num s, .num e] => { start := i64 s, end_ := i64 e }
+  | _ => {}
+/-- the dump prints non-negative ints only (the harness writes `?neg` otherwise; generators avoid it) -/
+def toV (r : Gen.openflow13.NXRange) : V :=
+  .obj "NXRange" [.num r.start.toUInt64.toNat, .num r.end_.toUInt64.toNat]
+end NXRange
+
+namespace CTStates
+def ofV : V → Gen.openflow13.CTStates
+  | .obj "CTStates" [.num d, .num m] => { data := n32 d, mask := n32 m }
+  | _ => {}
+def toV (s : Gen.openflow13.CTStates) : V := .obj "CTStates" [V.u32 s.data, V.u32 s.mask]
+/-- a method that only updates the receiver, through the regenerated body -/
+def lift (f : Gen.openflow13.CTStates → Gen.openflow13.CTStates) : V → List V → R (V × List V) :=
+  fun recv _ =>
+    match recv with
+    | .obj "CTStates" [.num _, .num _] => upd (toV (f (ofV recv)))
+    | _ => .panic
+end CTStates
+
+/-- cntUint32SuffixZero -/
+def cntUint32SuffixZero (data : UInt32) : Nat :=
+  if data = 0 then 32 else
+    ((List.range 32).find? (fun i => (data >>> UInt32.ofNat i) &&& 1 = 1)).getD 32
+
+/-- shiftDataByMask -/
+def shiftDataByMask (data oldMask newMask : UInt32) : UInt32 :=
+  let o := cntUint32SuffixZero oldMask
+  let n := cntUint32SuffixZero newMask
+  if n < o then shl32 data (o - n) else data
+
+/-- `x.(*Uint32Message).Data`: a failed type assertion panics -/
+def u32Data : V → R UInt32
+  | .obj "Uint32Message" [.num d] => .ok (n32 d)
+  | _ => .panic
+
+/-- NewMulitiRegMatch(fields...): registers with the same Field are merged into the first one.
+    The Go result is `maps.Values(map)`: its ORDER is random when more than one distinct Field occurs; the model
+    lists them in order of first occurrence (the generator only uses inputs with one distinct Field). -/
+def multiRegMerge (acc : List V) (reg : V) : R (List V) :=
+  match reg with
+  | .obj "MatchField" [_, .num rf, .num rhm, _, _, rval, rmask] =>
+    match acc.findIdx? (fun v => match v with | .obj "MatchField" (_ :: .num f :: _) => f = rf | _ => false) with
+    | none => .ok (acc ++ [reg])
+    | some i =>
+      match acc[i]? with
+      | some (.obj "MatchField" [c, f, .num hm, l, e, vval, vmask]) => do
+        let hm' := if hm ≠ 0 ∨ rhm ≠ 0 then 1 else 0
+        let vm ← u32Data vmask
+        let rm ← u32Data rmask
+        let newMask := vm ||| rm
+        let vd ← u32Data vval
+        let vm2 ← u32Data vmask
+        let rd ← u32Data rval
+        let rm2 ← u32Data rmask
+        let val := Uint32Message.new (shiftDataByMask vd vm2 newMask ||| shiftDataByMask rd rm2 newMask)
+        pure (acc.set i (.obj "MatchField" [c, f, .num hm', l, e, val, Uint32Message.new newMask]))
+      | _ => .panic
+  | _ => .panic     -- a nil *MatchField is dereferenced
+
+def multiRegMatch : List V → List V → R (List V)
+  | acc, [] => .ok acc
+  | acc, r :: rs => do
+    let acc ← multiRegMerge acc r
+    multiRegMatch acc rs
+
+def ctorsNX : FuncTab := [
+  ("FindFieldHeaderByName", fun (args : List V) => match args with
+    | [.bytes nm, .num hm] =>
+      match (lookupName nm).bind (fun n => findHeaderV n (hm ≠ 0)) with
+      | some h => ret1 h
+      | none => .err
+    | _ => .panic),
+  ("NewNXRange", fun (args : List V) => match args with
+    | [.num s, .num e] => ret1 (NXRange.toV (Gen.openflow13.NewNXRange (NXRange.i64 s) (NXRange.i64 e)))
+    | _ => .panic),
+  ("NewNXRangeByOfsNBits", fun (args : List V) => match args with
+    | [.num o, .num n] => ret1 (NXRange.toV (Gen.openflow13.NewNXRangeByOfsNBits (NXRange.i64 o) (NXRange.i64 n)))
+    | _ => .panic),
+  ("NewCTStates", fun _ => ret1 (CTStates.toV Gen.openflow13.NewCTStates)),
+  ("NewRegMatchField", fun (args : List V) => match args with
+    | [.num idx, .num data, rng] => do
+      -- fmt.Sprintf("NXM_NX_REG%d", idx): a negative idx (≥ 2^63 as an unsigned argument) names no register either
+      let h ← headerOrPanic ("NXM_NX_REG" ++ toString idx) (!rng.isNil)
+      let val := Uint32Message.new (n32 data)
+      match rng with
+      | .nil => ret1 (setValueMask h val none)
+      | r => ret1 (setValueMask h val (some (Uint32Message.new (Gen.openflow13.NXRange.ToUint32Mask (NXRange.ofV r)))))
+    | _ => .panic),
+  ("NewMulitiRegMatch", fun (args : List V) => do
+      let rs ← multiRegMatch [] args
+      ret1 (.list rs)),
+  ("NewTunMetadataField", fun (args : List V) => match args with
+    | [.num idx, .bytes data, .bytes mask] => do
+      let h ← headerOrPanic ("NXM_NX_TUN_METADATA" ++ toString idx) (mask.length > 0)
+      let dl : UInt8 := n8 data.length
+      let val := .obj "ByteArrayField" [.bytes data, V.u8 dl]
+      if mask.length > 0 then
+        let ml : UInt8 := n8 mask.length
+        ret1 (setLength (setValueMask h val (some (.obj "ByteArrayField" [.bytes mask, V.u8 ml]))) (dl + ml))
+      else
+        ret1 (setLength (setValueMask h val none) dl)
+    | _ => .panic),
+  ("NewCTStateMatchField", fun (args : List V) => match args with
+    | [.obj "CTStates" [.num d, .num m]] => do
+      let h ← headerOrPanic "NXM_NX_CT_STATE" true
+      ret1 (setValueMask h (Uint32Message.new (n32 d)) (some (Uint32Message.new (n32 m))))
+    | _ => .panic),   -- a nil *CTStates is dereferenced
+  ("NewCTZoneMatchField", fun (args : List V) => match args with
+    | [.num z] => do
+      let h ← headerOrPanic "NXM_NX_CT_ZONE" false
+      ret1 (setValueMask h (Uint16Message.new (n16 z)) none)
+    | _ => .panic),
+  ("NewCTMarkMatchField", fun (args : List V) => match args with
+    | [.num mark, m] => do
+      let h ← headerOrPanic "NXM_NX_CT_MARK" (!m.isNil)
+      ret1 (setValueMask h (Uint32Message.new (n32 mark)) ((optArg m).map fun x => Uint32Message.new (n32 x.asNat)))
+    | _ => .panic),
+  ("NewCTLabelMatchField", fun (args : List V) => match args with
+    | [.bytes label, m] => do
+      let h ← headerOrPanic "NXM_NX_CT_LABEL" (!m.isNil)
+      ret1 (setValueMask h (CTLabel.new label) ((optArg m).map fun x => CTLabel.new x.asBytes))
+    | _ => .panic),
+  ("NewConjIDMatchField", fun (args : List V) => match args with
+    | [.num c] => do
+      let h ← headerOrPanic "NXM_NX_CONJ_ID" false
+      ret1 (setValueMask h (Uint32Message.new (n32 c)) none)
+    | _ => .panic),
+  -- the masks below are slices: nil ⇔ empty
+  ("NewNxARPShaMatchField", fun (args : List V) => match args with
+    | [.bytes a, .bytes m] => do
+      let h ← headerOrPanic "NXM_NX_ARP_SHA" (m.length > 0)
+      ret1 (setValueMask h (.obj "ArpXHaField" [.bytes a]) (if m.length > 0 then some (.obj "ArpXHaField" [.bytes m]) else none))
+    | _ => .panic),
+  ("NewNxARPThaMatchField", fun (args : List V) => match args with
+    | [.bytes a, .bytes m] => do
+      let h ← headerOrPanic "NXM_NX_ARP_THA" (m.length > 0)
+      ret1 (setValueMask h (.obj "ArpXHaField" [.bytes a]) (if m.length > 0 then some (.obj "ArpXHaField" [.bytes m]) else none))
+    | _ => .panic),
+  ("NewNxARPSpaMatchField", fun (args : List V) => match args with
+    | [.bytes a, .bytes m] => do
+      let h ← headerOrPanic "NXM_OF_ARP_SPA" (m.length > 0)
+      ret1 (setValueMask h (.obj "ArpXPaField" [.bytes a]) (if m.length > 0 then some (.obj "ArpXPaField" [.bytes m]) else none))
+    | _ => .panic),
+  ("NewNxARPTpaMatchField", fun (args : List V) => match args with
+    | [.bytes a, .bytes m] => do
+      let h ← headerOrPanic "NXM_OF_ARP_TPA" (m.length > 0)
+      ret1 (setValueMask h (.obj "ArpXPaField" [.bytes a]) (if m.length > 0 then some (.obj "ArpXPaField" [.bytes m]) else none))
+    | _ => .panic)
+]
+
+/-! ### tables -/
+
+def kindsMatch : KindTab := [
+  ("Match", ⟨Match.lenM, Match.marshalM, Match.unmarshal, Match.zero⟩),
+  ("MatchField", ⟨MatchField.lenM, MatchField.marshalM, MatchField.unmarshal, MatchField.zero⟩),
+  ("InPortField", ⟨InPortField.lenM, InPortField.marshalM, InPortField.unmarshal, InPortField.zero⟩),
+  ("EthDstField", ⟨EthDstField.lenM, EthDstField.marshalM, EthDstField.unmarshal, EthDstField.zero⟩),
+  ("EthSrcField", ⟨EthSrcField.lenM, EthSrcField.marshalM, EthSrcField.unmarshal, EthSrcField.zero⟩),
+  ("EthTypeField", ⟨EthTypeField.lenM, EthTypeField.marshalM, EthTypeField.unmarshal, EthTypeField.zero⟩),
+  ("VlanIdField", ⟨VlanIdField.lenM, VlanIdField.marshalM, VlanIdField.unmarshal, VlanIdField.zero⟩),
+  ("MplsLabelField", ⟨MplsLabelField.lenM, MplsLabelField.marshalM, MplsLabelField.unmarshal, MplsLabelField.zero⟩),
+  ("MplsBosField", ⟨MplsBosField.lenM, MplsBosField.marshalM, MplsBosField.unmarshal, MplsBosField.zero⟩),
+  ("Ipv4SrcField", ⟨Ipv4SrcField.lenM, Ipv4SrcField.marshalM, Ipv4SrcField.unmarshal, Ipv4SrcField.zero⟩),
+  ("Ipv4DstField", ⟨Ipv4DstField.lenM, Ipv4DstField.marshalM, Ipv4DstField.unmarshal, Ipv4DstField.zero⟩),
+  ("Ipv6SrcField", ⟨Ipv6SrcField.lenM, Ipv6SrcField.marshalM, Ipv6SrcField.unmarshal, Ipv6SrcField.zero⟩),
+  ("Ipv6DstField", ⟨Ipv6DstField.lenM, Ipv6DstField.marshalM, Ipv6DstField.unmarshal, Ipv6DstField.zero⟩),
+  ("IPv6FlowLabelField", ⟨IPv6FlowLabelField.lenM, IPv6FlowLabelField.marshalM, IPv6FlowLabelField.unmarshal, IPv6FlowLabelField.zero⟩),
+  ("IpProtoField", ⟨IpProtoField.lenM, IpProtoField.marshalM, IpProtoField.unmarshal, IpProtoField.zero⟩),
+  ("IpDscpField", ⟨IpDscpField.lenM, IpDscpField.marshalM, IpDscpField.unmarshal, IpDscpField.zero⟩),
+  ("TunnelIdField", ⟨TunnelIdField.lenM, TunnelIdField.marshalM, TunnelIdField.unmarshal, TunnelIdField.zero⟩),
+  ("MetadataField", ⟨MetadataField.lenM, MetadataField.marshalM, MetadataField.unmarshal, MetadataField.zero⟩),
+  ("PortField", ⟨PortField.lenM, PortField.marshalM, PortField.unmarshal, PortField.zero⟩),
+  ("TcpFlagsField", ⟨TcpFlagsField.lenM, TcpFlagsField.marshalM, TcpFlagsField.unmarshal, TcpFlagsField.zero⟩),
+  ("ArpOperField", ⟨ArpOperField.lenM, ArpOperField.marshalM, ArpOperField.unmarshal, ArpOperField.zero⟩),
+  ("TunnelIpv4SrcField", ⟨TunnelIpv4SrcField.lenM, TunnelIpv4SrcField.marshalM, TunnelIpv4SrcField.unmarshal, TunnelIpv4SrcField.zero⟩),
+  ("TunnelIpv4DstField", ⟨TunnelIpv4DstField.lenM, TunnelIpv4DstField.marshalM, TunnelIpv4DstField.unmarshal, TunnelIpv4DstField.zero⟩),
+  ("ArpXHaField", ⟨ArpXHaField.lenM, ArpXHaField.marshalM, ArpXHaField.unmarshal, ArpXHaField.zero⟩),
+  ("ArpXPaField", ⟨ArpXPaField.lenM, ArpXPaField.marshalM, ArpXPaField.unmarshal, ArpXPaField.zero⟩),
+  ("ActsetOutputField", ⟨ActsetOutputField.lenM, ActsetOutputField.marshalM, ActsetOutputField.unmarshal, ActsetOutputField.zero⟩),
+  ("IcmpTypeField", ⟨IcmpTypeField.lenM, IcmpTypeField.marshalM, IcmpTypeField.unmarshal, IcmpTypeField.zero⟩),
+  ("IcmpCodeField", ⟨IcmpCodeField.lenM, IcmpCodeField.marshalM, IcmpCodeField.unmarshal, IcmpCodeField.zero⟩),
+  ("Uint16Message", ⟨Uint16Message.lenM, Uint16Message.marshalM, Uint16Message.unmarshal, Uint16Message.zero⟩),
+  ("Uint32Message", ⟨Uint32Message.lenM, Uint32Message.marshalM, Uint32Message.unmarshal, Uint32Message.zero⟩),
+  ("ByteArrayField", ⟨ByteArrayField.lenM, ByteArrayField.marshalM, ByteArrayField.unmarshal, ByteArrayField.zero⟩),
+  ("CTLabel", ⟨CTLabel.lenM, CTLabel.marshalM, CTLabel.unmarshal, CTLabel.zero⟩)
+]
+
+def funcsMatch : FuncTab := ctorsBasic ++ ctorsNX
+
+namespace Methods
+def addField (recv : V) (args : List V) : R (V × List V) :=
+  match args with
+  | [f] => do
+    let m ← Match.addField recv f
+    upd m
+  | _ => .panic
+def marshalHeader (recv : V) (_args : List V) : R (V × List V) :=
+  match recv with
+  | .obj "MatchField" _ => .ok (recv, [V.u32 (MatchField.headerWord recv)])
+  | _ => .panic
+def unmarshalHeader (recv : V) (args : List V) : R (V × List V) :=
+  match args with
+  | [.bytes d] => do
+    let m ← MatchField.unmarshalHeader recv (Slice.exact d)
+    upd m
+  | _ => .panic
+def getOXMName (recv : V) (_args : List V) : R (V × List V) :=
+  match recv with
+  | .obj "MatchField" _ => .ok (recv, [.bytes (MatchField.getOXMName recv)])
+  | _ => .panic
+def toUint32Mask (recv : V) (_args : List V) : R (V × List V) :=
+  match recv with
+  | .obj "NXRange" _ => .ok (recv, [V.u32 (Gen.openflow13.NXRange.ToUint32Mask (NXRange.ofV recv))])
+  | _ => .panic
+def toOfsBits (recv : V) (_args : List V) : R (V × List V) :=
+  match recv with
+  | .obj "NXRange" _ => .ok (recv, [V.u16 (Gen.openflow13.NXRange.ToOfsBits (NXRange.ofV recv))])
+  | _ => .panic
+def getOfs (recv : V) (_args : List V) : R (V × List V) :=
+  match recv with
+  | .obj "NXRange" _ => .ok (recv, [V.u16 (Gen.openflow13.NXRange.GetOfs (NXRange.ofV recv))])
+  | _ => .panic
+def getNbits (recv : V) (_args : List V) : R (V × List V) :=
+  match recv with
+  | .obj "NXRange" _ => .ok (recv, [V.u16 (Gen.openflow13.NXRange.GetNbits (NXRange.ofV recv))])
+  | _ => .panic
+/-- `$v.UnmarshalBinary(data)` called from an API program on an EXISTING value (the receiver matters for
+    ArpXHaField, ByteArrayField, MatchField and Match) -/
+def unmarshalInto (f : V → Slice → R V) (recv : V) (args : List V) : R (V × List V) :=
+  match args with
+  | [.bytes d] => do
+    let v ← f recv (Slice.exact d)
+    upd v
+  | _ => .panic
+end Methods
+
+def methodsMatch : MethodTab := [
+  ("Match.AddField", Methods.addField),
+  ("MatchField.MarshalHeader", Methods.marshalHeader),
+  ("MatchField.UnmarshalHeader", Methods.unmarshalHeader),
+  ("MatchField.GetOXMName", Methods.getOXMName),
+  ("CTStates.SetNew", CTStates.lift Gen.openflow13.CTStates.SetNew),
+  ("CTStates.UnsetNew", CTStates.lift Gen.openflow13.CTStates.UnsetNew),
+  ("CTStates.SetEst", CTStates.lift Gen.openflow13.CTStates.SetEst),
+  ("CTStates.UnsetEst", CTStates.lift Gen.openflow13.CTStates.UnsetEst),
+  ("CTStates.SetRel", CTStates.lift Gen.openflow13.CTStates.SetRel),
+  ("CTStates.UnsetRel", CTStates.lift Gen.openflow13.CTStates.UnsetRel),
+  ("CTStates.SetRpl", CTStates.lift Gen.openflow13.CTStates.SetRpl),
+  ("CTStates.UnsetRpl", CTStates.lift Gen.openflow13.CTStates.UnsetRpl),
+  ("CTStates.SetInv", CTStates.lift Gen.openflow13.CTStates.SetInv),
+  ("CTStates.UnsetInv", CTStates.lift Gen.openflow13.CTStates.UnsetInv),
+  ("CTStates.SetTrk", CTStates.lift Gen.openflow13.CTStates.SetTrk),
+  ("CTStates.UnsetTrk", CTStates.lift Gen.openflow13.CTStates.UnsetTrk),
+  ("CTStates.SetSNAT", CTStates.lift Gen.openflow13.CTStates.SetSNAT),
+  ("CTStates.UnsetSNAT", CTStates.lift Gen.openflow13.CTStates.UnsetSNAT),
+  ("CTStates.SetDNAT", CTStates.lift Gen.openflow13.CTStates.SetDNAT),
+  ("CTStates.UnsetDNAT", CTStates.lift Gen.openflow13.CTStates.UnsetDNAT),
+  ("ArpXHaField.UnmarshalBinary", Methods.unmarshalInto ArpXHaField.unmarshal),
+  ("ByteArrayField.UnmarshalBinary", Methods.unmarshalInto ByteArrayField.unmarshal),
+  ("MatchField.UnmarshalBinary", Methods.unmarshalInto MatchField.unmarshal),
+  ("Match.UnmarshalBinary", Methods.unmarshalInto Match.unmarshal),
+  ("NXRange.ToUint32Mask", Methods.toUint32Mask),
+  ("NXRange.ToOfsBits", Methods.toOfsBits),
+  ("NXRange.GetOfs", Methods.getOfs),
+  ("NXRange.GetNbits", Methods.getNbits)
+]
 
 end OFV.Model
